@@ -296,10 +296,10 @@ public:
 };
 
 std::vector<PicTrack>
-read_track_offset_lut(DFS::FileAccess* f, unsigned int tracks)
+read_track_offset_lut(DFS::FileAccess* f, unsigned int lut_block, unsigned int tracks)
 {
   std::vector<PicTrack> result;
-  std::vector<unsigned char> buf = f->read(512, tracks * 4u);
+  std::vector<unsigned char> buf = f->read(lut_block * 512ul, tracks * 4u);
   if (buf.size() != tracks * 4u)
     {
       std::ostringstream ss;
@@ -466,7 +466,7 @@ HfeFile::HfeFile(const std::string& name, bool compressed, std::unique_ptr<DFS::
 	     << " sides, but at most 2 are supported";
 	  throw UnsupportedHfeFile(ss.str());
 	}
-      std::vector<PicTrack> track_lut = read_track_offset_lut(file_.get(), header_.number_of_track);
+      std::vector<PicTrack> track_lut = read_track_offset_lut(file_.get(), header_.track_list_offset, header_.number_of_track);
 
       for (unsigned int side = 0; side < header_.number_of_side; ++side)
 	{
